@@ -447,6 +447,168 @@ def rule_fresh(run, prog):
     run.ob("R-6.3", f"{ci.key}::errors-of-file", ok, "Context.errors is not the file's own Errors", ci.node)
 
 
+# ------------------------------------------------------------------------------------------------
+# The rule tables, observed: Rules.__init__, Check.__init_subclass__, Check.register and Registry.__init__ are run by the
+# analyser's interpreter (minieval) on stub classes, with the order of __subclasses__() / os.listdir permuted.
+_SEM = {}
+
+
+def _module_lookup(prog, rels):
+    def lookup(name):
+        for rel in rels:
+            m = prog.mods.get(rel)
+            if m is not None and len(m.assigns.get(name, [])) == 1 and isinstance(m.assigns[name][0], ast.expr):
+                return m.assigns[name][0]
+        return None
+    return lookup
+
+
+def _stub_globals():
+    return {"attrgetter": lambda *names: (lambda o: o.__dict__[names[0]] if len(names) == 1 else tuple(o.__dict__[n] for n in names)),
+            "list": list, "dict": dict, "set": set, "tuple": tuple, "print": lambda *a, **k: None,
+            "reversed": lambda x: list(reversed(x)), "enumerate": lambda x, start=0: list(enumerate(x, start)),
+            "zip": lambda *x: list(zip(*x)), "str": str, "repr": repr}
+
+
+def registry_semantics(prog):
+    """{"primaries": [problems], "discovery": [...], "dependencies": [...], "register": [...], "init_subclass": [...],
+    "unsupported": {part: reason}} -- an empty list means the part behaves as the registry model assumes."""
+    if id(prog) in _SEM:
+        return _SEM[id(prog)]
+    import collections
+    import itertools
+    import os.path
+    from ..minieval import Evaluator, Obj, Raised, Unsupported
+    out = {"primaries": [], "discovery": [], "dependencies": [], "register": [], "init_subclass": [], "unsupported": {}}
+    errors = (Raised, LookupError, TypeError, ValueError, AttributeError)
+
+    # ---- Rules.__init__ ------------------------------------------------------------------------------
+    ri = prog.fn("rules/__init__.py::Rules.__init__")
+    prim = [Obj("type", __name__=n, name=n, priority=p, scope=()) for n, p in (("IsA", 10), ("IsB", 30), ("IsC", 20), ("IsD", 5))]
+    chk = [Obj("type", __name__=n, name=n) for n in ("CheckX", "CheckY")]
+    want = [x.__dict__["__name__"] for x in sorted(prim, key=lambda o: -o.__dict__["priority"])]
+    listing = ["is_a.py", "check_b.py", "is_c.py"]
+    try:
+        results = []
+        for perm in ([0, 1, 2, 3], [3, 2, 1, 0], [2, 0, 3, 1]):
+            for files in (listing, listing[::-1]):
+                imported = []
+                order = [prim[i] for i in perm]
+                g = _stub_globals()
+                g.update({"__file__": "/pkg/norminette/rules/__init__.py",
+                          "Primary": Obj("type", _native={"__subclasses__": lambda o=order: list(o)}),
+                          "Check": Obj("type", _native={"__subclasses__": lambda: list(chk)}),
+                          "Rule": Obj("type", _native={"__subclasses__": lambda o=order: list(o) + list(chk)})})
+                pathmod = Obj("module", _native={"dirname": os.path.dirname, "realpath": lambda p_: p_, "abspath": lambda p_: p_,
+                                                 "splitext": os.path.splitext, "join": os.path.join, "basename": os.path.basename})
+                ev = Evaluator({}, modules={"os": {"path": pathmod, "listdir": lambda d, f=files: list(f)},
+                                            "importlib": {"import_module": lambda nm, *a, _i=imported: _i.append(nm)}},
+                               lookup=_module_lookup(prog, ["rules/__init__.py"]))
+                ev.globals.update(g)
+                me = Obj("Rules")
+                try:
+                    ev.call_function(ri.node, {ri.params[0]: me})
+                except errors as e:
+                    out["primaries"].append(f"Rules.__init__ fails on stub rule classes: {type(e).__name__}: {e}")
+                    raise StopIteration
+                got = me.__dict__.get("primaries")
+                names = [x.__dict__.get("__name__") for x in got] if isinstance(got, (list, tuple)) else None
+                results.append(names)
+                if names != want:
+                    out["primaries"].append(f"with __subclasses__() order {[o.__dict__['__name__'] for o in order]} rules.primaries is {names}, "
+                                            f"expected {want} (descending priority, whatever the import order)")
+                missing = [f for f in files if "norminette.rules." + f[:-3] not in imported]
+                if missing:
+                    out["discovery"].append(f"modules {missing} of the rules directory are not imported (imported: {imported})")
+                if me.__dict__.get("checks") is None or [x.__dict__["__name__"] for x in me.__dict__["checks"]] != ["CheckX", "CheckY"]:
+                    out["discovery"].append("rules.checks is not Check.__subclasses__()")
+    except StopIteration:
+        pass
+    except Unsupported as e:
+        out["unsupported"]["rules_init"] = str(e)
+
+    # ---- Check.__init_subclass__ ------------------------------------------------------------------------------
+    ck = prog.cls("Check")
+    isc = ck.methods.get("__init_subclass__")
+    reg = ck.methods.get("register")
+    if isc is None or reg is None:
+        raise AnalysisError("anchor vanished: Check.__init_subclass__ / Check.register")
+    cases = [({}, {}), ({"depends_on": ("IsA",)}, {}), ({"depends_on": ("IsA", "IsB")}, {"runs_on_rule": True}),
+             ({}, {"runs_on_start": True}), ({"depends_on": ("IsA",)}, {"runs_on_end": True}), ({}, {"runs_on_rule": False}),
+             ({"runs_on_end": True}, {})]
+    try:
+        for attrs, kwargs in cases:
+            cls = Obj("CheckStub", __name__="CheckS", **attrs)
+            ev = Evaluator({}, lookup=_module_lookup(prog, ["rules/rule.py"]))
+            ev.globals.update(_stub_globals())
+            ev.globals["super"] = lambda *a: Obj("super", _native={"__init_subclass__": lambda *a_, **k_: None})
+            try:
+                ev.invoke(isc.node, [cls], dict(kwargs))
+            except errors as e:
+                out["init_subclass"].append(f"Check.__init_subclass__ fails for class attributes {attrs}, keywords {kwargs}: {type(e).__name__}: {e}")
+                continue
+            deps = attrs.get("depends_on", ())
+            exp = {"depends_on": deps,
+                   "runs_on_start": kwargs.get("runs_on_start", attrs.get("runs_on_start", False)),
+                   "runs_on_rule": kwargs.get("runs_on_rule", attrs.get("runs_on_rule", not deps)),
+                   "runs_on_end": kwargs.get("runs_on_end", attrs.get("runs_on_end", False))}
+            gotv = {k: cls.__dict__.get(k, "<unset>") for k in exp}
+            if any(bool(gotv[k]) != bool(exp[k]) or gotv[k] == "<unset>" for k in exp if k != "depends_on") \
+                    or tuple(gotv["depends_on"] if gotv["depends_on"] != "<unset>" else ("<unset>",)) != tuple(deps):
+                out["init_subclass"].append(f"a Check declared with attributes {attrs} and class keywords {kwargs} gets {gotv}, the "
+                                            f"registry model assumes {exp}")
+    except Unsupported as e:
+        out["unsupported"]["init_subclass"] = str(e)
+
+    # ---- Registry.__init__ + Check.register ------------------------------------------------------------------------
+    gi = prog.fn("registry.py::Registry.__init__")
+    spec = [("CheckM", ("IsA",), False, False, False), ("CheckB", ("IsA", "IsB"), False, True, False),
+            ("CheckZ", (), False, True, False), ("CheckA", (), True, True, True), ("CheckK", ("IsB",), False, False, True),
+            ("CheckC", ("IsA",), False, True, False)]
+    try:
+        tables = []
+        for perm in itertools.islice(itertools.permutations(range(len(spec))), 0, 720, 97):
+            stubs = [Obj("CheckStub", __name__=n, name=n, depends_on=d, runs_on_start=s_, runs_on_rule=r, runs_on_end=e_)
+                     for n, d, s_, r, e_ in (spec[i] for i in perm)]
+            ev = Evaluator({("CheckStub", "register"): reg.node, **{("Registry", n): m.node for n, m in prog.cls("Registry").methods.items()}},
+                           modules={"collections": {"defaultdict": lambda f=None: collections.defaultdict(list),
+                                                    "OrderedDict": collections.OrderedDict}},
+                           lookup=_module_lookup(prog, ["registry.py", "rules/rule.py"]))
+            ev.globals.update(_stub_globals())
+            ev.globals["defaultdict"] = lambda f=None: collections.defaultdict(list)
+            ev.globals["rules"] = Obj("Rules", checks=stubs, primaries=[], all=stubs)
+            me = Obj("Registry")
+            try:
+                ev.call_function(gi.node, {gi.params[0]: me})
+            except errors as e:
+                out["dependencies"].append(f"Registry.__init__ fails on stub checks: {type(e).__name__}: {e}")
+                break
+            deps = me.__dict__.get("dependencies")
+            if not isinstance(deps, dict):
+                out["dependencies"].append("Registry.__init__ does not build self.dependencies")
+                break
+            table = {k: [x.__dict__["__name__"] for x in v] for k, v in deps.items() if v}
+            tables.append(table)
+            expect = {}
+            for n, d, s_, r, e_ in spec:
+                for k in list(d) + (["_start"] if s_ else []) + (["_rule"] if r else []) + (["_end"] if e_ else []):
+                    expect.setdefault(k, []).append(n)
+            for k in sorted(set(expect) | set(table)):
+                if sorted(table.get(k, [])) != sorted(expect.get(k, [])):
+                    out["register"].append(f"slot {k!r} holds {sorted(table.get(k, []))}, the registry model expects {sorted(expect.get(k, []))}")
+        if tables and any(t != tables[0] for t in tables[1:]):
+            k = next(k for t in tables[1:] for k in t if t.get(k) != tables[0].get(k))
+            other = next(t for t in tables[1:] if t.get(k) != tables[0].get(k))
+            out["dependencies"].append(f"the order of Registry.dependencies[{k!r}] follows the registration order ({tables[0].get(k)} vs "
+                                       f"{other.get(k)}): it would be decided by os.listdir")
+    except Unsupported as e:
+        out["unsupported"]["registry_init"] = str(e)
+    for k in ("primaries", "discovery", "dependencies", "register", "init_subclass"):
+        out[k] = sorted(set(out[k]))
+    _SEM[id(prog)] = out
+    return out
+
+
 def rule_order(run, prog):
     run.rule("R-6.4", "registry order is independent of the directory listing: Primary priorities pairwise distinct, rule "
              "names distinct, rules.primaries and every Registry.dependencies list come out of sorted(key=priority / "
@@ -460,20 +622,33 @@ def rule_order(run, prog):
                f"priority {p!r} of {c.name} is not a unique integer (also {seen.get(p)}): the order of the two rules "
                f"would be decided by os.listdir", c.node, priority=p)
         seen.setdefault(p, c.name)
+    sem = registry_semantics(prog)
     ri = prog.fn("rules/__init__.py::Rules.__init__")
     asg = {text(n.targets[0]): n for n in walk_fn(ri.node) if isinstance(n, ast.Assign)}
     pn = asg.get("self.primaries")
-    ok = pn is not None and isinstance(pn.value, ast.Call) and text(pn.value.func) == "sorted" and "priority" in text(
-        [k.value for k in pn.value.keywords if k.arg == "key"][0] if [k for k in pn.value.keywords if k.arg == "key"] else ast.Constant(0))
-    run.ob("R-6.4", f"{ri.key}::sorted-primaries", ok, "rules.primaries is not sorted by priority", pn or ri.node)
+    if "rules_init" in sem["unsupported"]:
+        # outside the interpreter's subset: the syntactic form
+        run.note(f"R-6.4: Rules.__init__ not interpreted ({sem['unsupported']['rules_init']}); syntactic form used")
+        ok = pn is not None and isinstance(pn.value, ast.Call) and text(pn.value.func) == "sorted" and "priority" in text(
+            [k.value for k in pn.value.keywords if k.arg == "key"][0] if [k for k in pn.value.keywords if k.arg == "key"] else ast.Constant(0))
+        why = "rules.primaries is not sorted by priority"
+    else:
+        ok = not sem["primaries"]
+        why = "rules.primaries is not sorted by priority: " + "; ".join(sem["primaries"][:2])
+    run.ob("R-6.4", f"{ri.key}::sorted-primaries", ok, why, pn or ri.node)
     gi = prog.fn("registry.py::Registry.__init__")
     stores = [n for n in walk_fn(gi.node) if isinstance(n, ast.Assign) and "self.dependencies[" in text(n.targets[0])]
-    ok = bool(stores) and all(isinstance(n.value, ast.Call) and text(n.value.func) == "sorted" and any(
-        k.arg == "key" and "__name__" in text(k.value) for k in n.value.keywords) for n in stores)
-    # ... and it happens for every key: the store is inside a loop over self.dependencies.items()
-    ok = ok and all(any(isinstance(a, ast.For) and "self.dependencies" in text(a.iter) for a in ancestors(n)) for n in stores)
-    run.ob("R-6.4", f"{gi.key}::sorted-dependencies", ok,
-           "the dependency lists are not re-sorted by class name after registration", stores[0] if stores else gi.node)
+    if "registry_init" in sem["unsupported"]:
+        run.note(f"R-6.4: Registry.__init__ not interpreted ({sem['unsupported']['registry_init']}); syntactic form used")
+        ok = bool(stores) and all(isinstance(n.value, ast.Call) and text(n.value.func) == "sorted" and any(
+            k.arg == "key" and "__name__" in text(k.value) for k in n.value.keywords) for n in stores)
+        # ... and it happens for every key: the store is inside a loop over self.dependencies.items()
+        ok = ok and all(any(isinstance(a, ast.For) and "self.dependencies" in text(a.iter) for a in ancestors(n)) for n in stores)
+        why = "the dependency lists are not re-sorted by class name after registration"
+    else:
+        ok = not sem["dependencies"]
+        why = "the dependency lists are not re-sorted by class name after registration: " + "; ".join(sem["dependencies"][:2])
+    run.ob("R-6.4", f"{gi.key}::sorted-dependencies", ok, why, stores[0] if stores else gi.node)
     users = []
     for fn in prog.fns:
         for n in walk_fn(fn.node):
@@ -487,11 +662,17 @@ def rule_order(run, prog):
     run.ob("R-6.4", "rules/__init__.py::Rules::order-consumers", not extra and len(users) >= 4,
            f"rule tables / __subclasses__() are consumed in {extra}: an order-sensitive use outside the sorted tables",
            users[0][1] if users else None, users=len(users))
-    # registration order does not matter: Check.register only appends, Registry.__init__ sorts afterwards (above)
+    # registration order does not matter: Check.register only adds the class to the lists of its slots, Registry.__init__
+    # sorts afterwards (above)
     reg = prog.fn("rules/rule.py::Check.register")
-    only_append = all(not (isinstance(n, ast.Call) and isinstance(n.func, ast.Attribute) and n.func.attr in MUTATORS - {"append"}
-                           and "dependencies" in text(n.func.value)) for n in walk_fn(reg.node))
-    run.ob("R-6.4", f"{reg.key}::append-only", only_append, "Check.register does more than append to the dependency lists", reg.node)
+    if "registry_init" in sem["unsupported"]:
+        only_append = all(not (isinstance(n, ast.Call) and isinstance(n.func, ast.Attribute) and n.func.attr in MUTATORS - {"append"}
+                               and "dependencies" in text(n.func.value)) for n in walk_fn(reg.node))
+        why = "Check.register does more than append to the dependency lists"
+    else:
+        only_append = not sem["register"]
+        why = "Check.register does more than append the class to the lists of its slots: " + "; ".join(sem["register"][:2])
+    run.ob("R-6.4", f"{reg.key}::append-only", only_append, why, reg.node)
 
 
 SETTERS = {
